@@ -45,6 +45,9 @@ type Case struct {
 	Parser         string `json:"parser,omitempty"`
 	Arg            int    `json:"arg,omitempty"`
 	ExpectTooLarge int    `json:"expect_413,omitempty"` // 1: must be 413, 2: must not be 413
+	// HeadIntact: the input is a HEAD request whose header block is the seed's, unchanged (the edit lies in the body):
+	// the server has read the method, so whatever it answers, it answers a HEAD - no bytes after the header block
+	HeadIntact bool `json:"head_intact,omitempty"`
 }
 
 var hostile = []byte{0, '\t', '\n', '\r', ' ', '"', '%', ',', '-', '.', '/', '0', '9', ':', ';', '=', '?', '@', 'A', 'a', '\\', 0x7f, 0x80, 0xff}
@@ -67,6 +70,7 @@ var serverSeeds = []string{
 	"GET //x/y HTTP/1.1\r\nHost: h\r\n\r\n",
 	"OPTIONS * HTTP/1.1\r\nHost: h\r\n\r\n",
 	"HEAD /h HTTP/1.1\r\nHost: h\r\n\r\n",
+	"HEAD /h HTTP/1.1\r\nHost: h\r\nTransfer-Encoding: chunked\r\n\r\n3\r\nabc\r\n0\r\n\r\n",
 	"GET /f HTTP/1.1\r\nHost: h\r\nX-F: a\r\n b\r\n\r\n",
 	"POST /m HTTP/1.1\r\nHost: h\r\nContent-Type: multipart/form-data; boundary=xx\r\nContent-Length: 62\r\n\r\n--xx\r\nContent-Disposition: form-data; name=\"a\"\r\n\r\nv\r\n--xx--\r\n",
 	"POST /u HTTP/1.1\r\nHost: h\r\nContent-Type: application/x-www-form-urlencoded\r\nContent-Length: 7\r\n\r\na=1&b=2",
@@ -144,12 +148,20 @@ func (w *worker) execServer(c *mc.Ctx, cs Case) string {
 	for _, s := range res.Seen {
 		methods = append(methods, s.Method)
 	}
-	ms, err := httpref.ParseResponses(res.Out, methods, true)
-	if err != nil {
-		// the method of a request that was rejected before any handler ran is not known to the harness:
-		// a rejected HEAD is answered without a body
-		if ms2, err2 := httpref.ParseResponses(res.Out, append(append([]string{}, methods...), "HEAD"), true); err2 == nil {
-			ms, err = ms2, nil
+	var ms []*httpref.Message
+	var err error
+	if len(res.Seen) == 0 && cs.HeadIntact {
+		// the first request is a HEAD and no handler ran: whatever the server answers, it answers a HEAD -
+		// bytes after the header block belong to no message
+		ms, err = httpref.ParseResponses(res.Out, []string{"HEAD"}, true)
+	} else {
+		ms, err = httpref.ParseResponses(res.Out, methods, true)
+		if err != nil {
+			// the method of a later request that was rejected before any handler ran is not known to the harness:
+			// a rejected HEAD is answered without a body
+			if ms2, err2 := httpref.ParseResponses(res.Out, append(append([]string{}, methods...), "HEAD"), true); err2 == nil {
+				ms, err = ms2, nil
+			}
 		}
 	}
 	if err != nil {
@@ -198,6 +210,28 @@ func (w *worker) execServer(c *mc.Ctx, cs Case) string {
 		c.Violate("limit-false-reject|"+mode, fmt.Sprintf("body within MaxRequestBodySize=%d was rejected\ninput=%q\noutput=%q", cs.MaxBody, clip(cs.Input, 300), clip(string(res.Out), 300)), cs)
 	}
 	return fmt.Sprintf("seen=%d rejected=%v", len(res.Seen), rejected)
+}
+
+var redirectSeeds = []string{
+	"HTTP/1.1 302 Found\r\nLocation: /next?a=1&b=c d\r\nContent-Length: 0\r\n\r\n",
+	"HTTP/1.1 301 Moved\r\nLocation: http://h/p/../q?x#f\r\nContent-Length: 0\r\n\r\n",
+	"HTTP/1.1 307 T\r\nLocation: ?only=query\r\nContent-Length: 0\r\n\r\n",
+}
+
+func execRedirect(c *mc.Ctx, cs Case) {
+	in := []byte(cs.Input)
+	segs := [][]byte{in}
+	if cs.Bytewise {
+		segs = netsim.Bytewise(in)
+	}
+	out, o := clih.ObserveRedirect(segs, false)
+	if o.Panic != "" {
+		c.Violate("client-panic|redirect", fmt.Sprintf("panic while following a redirect: %s\ninput=%q", clip(o.Panic, 1500), cs.Input), cs)
+		return
+	}
+	if _, err := httpref.ParseRequests(out); err != nil {
+		c.Violate("client-malformed-output|redirect", fmt.Sprintf("after the peer's answer the client wrote bytes that are not well-formed requests: %v\ninput=%q\nwritten=%q", err, cs.Input, clip(string(out), 400)), cs)
+	}
 }
 
 func execClient(c *mc.Ctx, cs Case) string {
@@ -445,6 +479,9 @@ func run(c *mc.Ctx) {
 			for _, st := range []bool{false, true} {
 				for _, bw := range []bool{false, true} {
 					cs := Case{Side: j.side, Input: m, Streaming: st, Bytewise: bw}
+					if hb := strings.Index(j.seed, "\r\n\r\n"); j.side == "server" && strings.HasPrefix(j.seed, "HEAD ") && hb > 0 && len(m) >= hb+4 && m[:hb+4] == j.seed[:hb+4] {
+						cs.HeadIntact = true
+					}
 					var v string
 					if j.side == "server" {
 						v = w.execServer(c, cs)
@@ -482,6 +519,25 @@ func run(c *mc.Ctx) {
 			}
 		}
 	})
+	// 1b) what the client writes next is derived from the peer's bytes when it follows a redirect: every 1-edit
+	// (thorough: 2-edit) mutant of redirect responses is answered by the redirect-following helper; all bytes the
+	// client wrote must be a sequence of well-formed requests
+	var redir []string
+	for _, s := range redirectSeeds {
+		mutants1(s, func(m string) {
+			redir = append(redir, m)
+			if c.Thorough() && len(s) <= 70 {
+				mutants1(m, func(m2 string) { redir = append(redir, m2) })
+			}
+		})
+	}
+	c.Extra("redirect_mutants", len(redir))
+	c.ParallelFor(len(redir), func(i int) {
+		for _, bw := range []bool{false, true} {
+			execRedirect(c, Case{Side: "redirect", Input: redir[i], Bytewise: bw})
+			atomic.AddInt64(ex, 1)
+		}
+	})
 	c.Add("nontrivial", nt)
 	c.Extra("client_executions_repeated_on_a_fresh_client", atomic.LoadInt64(&clih.Exhausted))
 	// 2) limit enforcement grid (buffered: over the limit is always 413)
@@ -503,13 +559,14 @@ func run(c *mc.Ctx) {
 				mp := mpHead + strings.Repeat("v", fill) + mpTail
 				reqs["multipart"] = fmt.Sprintf("POST /l HTTP/1.1\r\nHost: h\r\nContent-Type: multipart/form-data; boundary=xx\r\nContent-Length: %d\r\n\r\n%s", n, mp)
 			}
+			reqs["head-cl"] = fmt.Sprintf("HEAD /l HTTP/1.1\r\nHost: h\r\nContent-Length: %d\r\n\r\n%s", n, body)
 			if n == 0 {
 				delete(reqs, "chunked")
 				reqs["chunked"] = "POST /l HTTP/1.1\r\nHost: h\r\nTransfer-Encoding: chunked\r\n\r\n0\r\n\r\n"
 			}
 			for _, r := range reqs {
 				for _, bw := range []bool{false, true} {
-					cs := Case{Side: "server", Input: r, MaxBody: limit, Bytewise: bw, ExpectTooLarge: 2}
+					cs := Case{Side: "server", Input: r, MaxBody: limit, Bytewise: bw, ExpectTooLarge: 2, HeadIntact: strings.HasPrefix(r, "HEAD ")}
 					if n > limit {
 						cs.ExpectTooLarge = 1
 					}
@@ -676,6 +733,8 @@ func replay(c *mc.Ctx, raw json.RawMessage) {
 		w.execServer(c, cs)
 	case "client":
 		execClient(c, cs)
+	case "redirect":
+		execRedirect(c, cs)
 	case "parser":
 		for i := range parsers {
 			if parsers[i].name == cs.Parser {
